@@ -48,3 +48,20 @@ Fixpoint string_nodes_ok (content : bytes) (n : node) : bool :=
    then (sb + 2 <=? eb) && match nth_error content (N.to_nat sb) with Some x => negb (x =? 10) | None => false end
    else true)
   && (fix go (l : list node) : bool := match l with [] => true | c :: t => string_nodes_ok content c && go t end) ch.
+
+(* a predicate on every node of a tree *)
+Fixpoint tree_forall (P : node -> bool) (n : node) : bool :=
+  let 'Node _ _ _ _ _ _ _ ch := n in
+  P n && (fix go (l : list node) : bool := match l with [] => true | c :: t => tree_forall P c && go t end) ch.
+(* what the walks need of a node not to panic: its byte range can be sliced, and a string token does not end at offset 0 *)
+Definition node_safe (content : bytes) (n : node) : bool :=
+  (n_sb n <=? n_eb n) && (n_eb n <=? blen content)
+  && (if beq (n_kind n) [115;116;114;105;110;103] then negb (n_eb n =? 0) else true).
+
+(* no node whose text, trimmed, is a lone quote character (the YAML / TOML walks cut the first and last byte off a
+   value that starts and ends with a quote) *)
+Definition not_lone_quote (content : bytes) (n : node) : bool :=
+  match node_text content n with
+  | Some t => let tr := trim t in negb (beq tr [34]) && negb (beq tr [39])
+  | None => true
+  end.
